@@ -159,7 +159,7 @@ pub fn toy<M: Model>(meta: &'static ToyDesc, rep: &mut Report, rng: &mut Rng) {
     rep.sample(&format!("c12/{}", meta.name), || json!({"curve": meta.name, "points": pts.len(), "r": meta.r, "h": meta.h}));
 }
 
-pub fn shipped<M: Model>(name: &str, rep: &mut Report, rng: &mut Rng, iters: usize, heff: Option<Heff>) {
+pub fn shipped<M: Model>(name: &str, rep: &mut Report, rng: &mut Rng, iters: usize, heff: Option<Heff>, small_order: usize) {
     let ctx = Ctx::<M, Fld<M::F>>::new(name, Fld(Default::default()));
     rep.config(name);
     let cur = &ctx.cur;
@@ -179,6 +179,52 @@ pub fn shipped<M: Model>(name: &str, rep: &mut Report, rng: &mut Rng, iters: usi
     };
     let sub_point = |rng: &mut Rng| -> OP<M::F> { ctx.decode_aff(&(M::A::generator() * M::S::rand(rng)).into_affine()) };
     let mut outside = 0usize;
+    // points of exact small prime order l for every small prime l | h (and of order l^2 where they exist):
+    // endomorphism-based membership tests compare two derived points and can be fooled exactly there
+    if !h_is_one && small_order > 0 {
+        let (ls, _) = oracle::small_factors(ctx.h.clone(), 70_000);
+        // quick tier: the four smallest primes, one point each; thorough: all of them, two points each
+        let take = if small_order == 1 { 4 } else { ls.len() };
+        if !M::TE && !ls.is_empty() {
+            rep.require_here("point: exact small prime order l | h");
+        }
+        for l in ls.into_iter().take(take) {
+            let lu = UInt::from(l);
+            let mut hl = ctx.h.clone();
+            while (&hl % &lu).is_zero() {
+                hl /= &lu;
+            }
+            let mut found = 0;
+            for _try in 0..40 {
+                let t = curve_point(rng);
+                let Ok(tor) = cur.mul(&ctx.r, &t) else { continue };
+                let Ok(mut u) = cur.mul(&hl, &tor) else { continue };
+                if cur.is_identity(&u) {
+                    continue;
+                }
+                // u has order l^j, j >= 1: walk down to exact order l, keeping the point one step above
+                let mut above: Option<OP<M::F>> = None;
+                loop {
+                    let Ok(nx) = cur.mul(&lu, &u) else { break };
+                    if cur.is_identity(&nx) {
+                        break;
+                    }
+                    above = Some(u.clone());
+                    u = nx;
+                }
+                rep.class("point: exact small prime order l | h");
+                let sp = sub_point(rng);
+                for p in [Some(u.clone()), Some(cur.neg(&u)), above, cur.add(&sp, &u).ok()].into_iter().flatten() {
+                    let q = curve_point(rng);
+                    check_point(&ctx, rep, &p, &heff, false, Some(&q));
+                }
+                found += 1;
+                if found >= small_order {
+                    break;
+                }
+            }
+        }
+    }
     for it in 0..iters {
         let p = match it % 6 {
             0 => sub_point(rng),
@@ -410,13 +456,14 @@ pub fn items(args: &Args) -> Vec<Item> {
         };
     }
     let iters = args.pick(12usize, 240);
+    let so = args.pick(1usize, 2);
     macro_rules! sw {
         ($name:literal, $cfg:ty) => {
             for shard in 0..2 {
                 v.push(Item::new(format!("c12/{}/{}", $name, shard), move |rep, rng, _| {
                     let one = <$cfg as ark_ec::CurveConfig>::cofactor_is_one();
                     if !one { rep.require_here("cofactor > 1 curve: > 30% of the points were outside the subgroup"); }
-                    shipped::<SWm<$cfg>>($name, rep, rng, iters / 2, heff_for($name))
+                    shipped::<SWm<$cfg>>($name, rep, rng, iters / 2, heff_for($name), if shard == 0 { so } else { 0 })
                 }));
             }
         };
@@ -424,7 +471,7 @@ pub fn items(args: &Args) -> Vec<Item> {
     macro_rules! te {
         ($name:literal, $cfg:ty) => {
             for shard in 0..2 {
-                v.push(Item::new(format!("c12/{}/{}", $name, shard), move |rep, rng, _| shipped::<TEm<$cfg>>($name, rep, rng, iters / 2, None)));
+                v.push(Item::new(format!("c12/{}/{}", $name, shard), move |rep, rng, _| shipped::<TEm<$cfg>>($name, rep, rng, iters / 2, None, if shard == 0 { so } else { 0 })));
             }
         };
     }
